@@ -261,15 +261,28 @@ type ret struct{ at, val int }
 
 // concurrent: `callers` threads call the wrapper `per` times each.
 func concurrent(w wrapped, kind string, n, callers, per int) vs.Scenario {
+	return concurrentCtx(w, kind, n, callers, per, false)
+}
+
+// deadFirst: caller 0 passes a context that is already over (the wrapped
+// function of the probe ignores its context, so the contract is unchanged:
+// one execution, nobody returns before it ended, everybody sees its result).
+func concurrentCtx(w wrapped, kind string, n, callers, per int, deadFirst bool) vs.Scenario {
 	return func() (func(), func(*vs.End) (string, string)) {
 		p := &probe{}
 		var rets []ret
 		final := -2
 		body := func() {
-			ctx := context.Background()
+			live := context.Background()
+			dead, kill := context.WithCancel(context.Background())
+			kill()
 			call := w.mk(p, n)
 			fin := make(chan struct{}, callers)
 			for c := 0; c < callers; c++ {
+				ctx := live
+				if deadFirst && c == 0 {
+					ctx = dead
+				}
 				go func() {
 					for i := 0; i < per; i++ {
 						v := call(ctx)
@@ -282,7 +295,7 @@ func concurrent(w wrapped, kind string, n, callers, per int) vs.Scenario {
 				<-fin
 			}
 			if kind == "limit" {
-				final = call(ctx)
+				final = call(live)
 			}
 		}
 		check := func(e *vs.End) (string, string) {
@@ -465,6 +478,59 @@ func rewait(name string) vs.Scenario {
 			// otherwise to the second
 			if atReturn >= 1 && !errors.Is(second, sentinel) && !errors.Is(first, sentinel) {
 				return "waiter-lost-result/after-abandoned-wait", fmt.Sprintf("%s: neither call of the waiter returned the execution's result (first=%v, second=%v)", name, first, second)
+			}
+			return endTag(e)
+		}
+		return body, check
+	}
+}
+
+// siblingWait: two callers wait on the same waiter / wait group at once; the
+// context of one of them ends. The other one (live context) may not complete
+// before the background executions have.
+func siblingWait(name string) vs.Scenario {
+	return func() (func(), func(*vs.End) (string, string)) {
+		finished, want := 0, 2
+		liveAt := -1
+		body := func() {
+			ctx, cancel := context.WithCancel(context.Background())
+			defer cancel()
+			dying, kill := context.WithCancel(context.Background())
+			gate := make(chan struct{})
+			op := fun.Operation(func(context.Context) { <-gate; finished++ })
+			wk := fun.Worker(func(context.Context) error { <-gate; finished++; return nil })
+			var wait func(context.Context)
+			switch name {
+			case "Operation.StartGroup":
+				wg := &fun.WaitGroup{}
+				op.StartGroup(ctx, wg, 2)
+				wait = wg.Wait
+			case "Worker.StartGroup":
+				w := wk.StartGroup(ctx, 2)
+				wait = func(c context.Context) { _ = w(c) }
+			case "Operation.Add":
+				wg := &fun.WaitGroup{}
+				op.Add(ctx, wg)
+				op.Add(ctx, wg)
+				wait = wg.Operation()
+			case "wg.Worker":
+				wg := &fun.WaitGroup{}
+				wg.DoTimes(ctx, 2, op)
+				w := wg.Worker()
+				wait = func(c context.Context) { _ = w(c) }
+			}
+			fin := make(chan struct{}, 2)
+			go func() { wait(dying); fin <- struct{}{} }()
+			go func() { wait(ctx); liveAt = finished; fin <- struct{}{} }()
+			kill()
+			vs.Quiesce()
+			close(gate)
+			<-fin
+			<-fin
+		}
+		check := func(e *vs.End) (string, string) {
+			if liveAt >= 0 && liveAt < want {
+				return "waiter-returned-before-completion/sibling-context-ended", fmt.Sprintf("%s: the caller with a live context returned with %d of %d background executions finished after another caller's context ended", name, liveAt, want)
 			}
 			return endTag(e)
 		}
@@ -682,6 +748,14 @@ func build(tier string) ([]runner.Instance, time.Duration) {
 	}
 	for _, name := range []string{"Operation.Launch", "Operation.Signal", "Worker.Launch", "Worker.Signal", "Worker.Background", "Worker.StartGroup", "Operation.StartGroup", "Operation.Add", "Producer.Launch", "Processor.Background"} {
 		add("waiter/"+name, "waiter/"+name, bound+1, waiter(name))
+	}
+	for _, name := range []string{"Operation.StartGroup", "Worker.StartGroup", "Operation.Add", "wg.Worker"} {
+		add("sibling-wait/"+name, "sibling-wait/"+name, bound, siblingWait(name))
+	}
+	for _, w := range onceWrappers() {
+		for c := 1; c <= 2; c++ {
+			add("once/"+w.name, fmt.Sprintf("once/%s/callers=%d,first-context-over", w.name, c), bound, concurrentCtx(w, "once", 0, c, 1, true))
+		}
 	}
 	for _, name := range []string{"Worker.Launch", "Worker.Background", "Operation.Launch", "Processor.Background", "Producer.Launch"} {
 		add("rewait/"+name, "rewait/"+name, bound, rewait(name))
